@@ -317,6 +317,27 @@ def frag_taskgraph(repo):
     out.append("(* probabilities as integer numerators over g_den; `total` = their sum *)\n"
                "Definition probs_all_zero (probs : list Z) : bool :=\n  %s.\n" % ZFORMS[src(ztest.test)])
     out.append("Definition probs_rejected (total den : Z) : bool :=\n  %s.\n" % RFORMS[src(rtest.test)])
+    # the loop over the children after the draw: chosen child / a join that another parent still leads to / cancel
+    cl = None
+    for st in clean(top.body):
+        if isinstance(st, ast.For) and src(st.iter) == "task_children" and src(st.target) == "child":
+            cl = st
+    cb = clean(cl.body) if cl is not None else []
+    if not (len(cb) == 1 and isinstance(cb[0], ast.If) and src(cb[0].test) == "child == child_to_release"
+            and [src(x) for x in clean(cb[0].body)] == ["child.update_probability(1.0)"]
+            and len(clean(cb[0].orelse)) == 1 and isinstance(clean(cb[0].orelse)[0], ast.If)):
+        die(top, "notify_task_completion: loop over the children after the draw changed")
+    keep = clean(cb[0].orelse)[0]
+    if not (len(clean(keep.body)) == 1 and isinstance(clean(keep.body)[0], ast.Continue)
+            and [src(x) for x in clean(keep.orelse)] == ["cancelled_tasks.extend(self.cancel(child, finish_time))"]):
+        die(keep, "notify_task_completion: the untaken children are handled differently")
+    tbl = {"child.terminal": "terminal", "self.get_parents(child)": "parents", "parent != task": "not parent.is_task"}
+    tr = mk_tr({"terminal": ("terminal", "bool")},
+               extra_attrs={("A", "state"): ("state_of", "TaskState"), ("A", "is_task"): ("is_task", "bool")},
+               list_vars={"parents": ("parents", "A")})
+    out.append("(* an untaken child that is a join which another parent can still reach is left alone *)\n"
+               "Definition notify_keeps_join {A : Type} (state_of : A -> task_state) (is_task : A -> bool)\n"
+               "    (terminal : bool) (parents : list A) : bool :=\n  %s.\n" % texpr(tr, subst(keep.test, tbl, list(tbl)), "bool"))
     eb = clean(top.orelse)
     if not (len(eb) == 1 and isinstance(eb[0], ast.For) and src(eb[0].iter) == "self.get_children(task)"
             and src(eb[0].target) == "child"):
